@@ -208,7 +208,11 @@ class PostProcessor:
             cff.charset = [rename_map.get(n, n) for n in cff.charset]
 
     def _build_production_names(self):
-        seen = {}
+        # Glyphs that aren't in the source are not renamed (see below): reserve
+        # their names, so that no other glyph is given one of them.
+        seen = {
+            name: 1 for name in self.otf.getGlyphOrder() if name not in self.glyphSet
+        }
         rename_map = {}
         for name in self.otf.getGlyphOrder():
             # Ignore glyphs that aren't in the source, as they are usually generated
